@@ -43,4 +43,28 @@ theorem wire_transport (cs l : List Chunk.Chunk) (p : PwbPacket) (hp : cs.Perm l
     g hd
   simp only [pwbFromChunkBytes, decodeAll_encode l hwl, hr]
 
+/-! ### Non-vacuity -/
+
+def kk (i fl : Nat) (p : List UInt8) : Chunk.Chunk :=
+  { deviceId := 2281646316, packetSequence := 7, channelSequence := 1, channelId := 3, flags := fl,
+    chunkId := i, payload := p }
+def k0 : Chunk.Chunk := kk 0 0 (docPacket.take 40)
+def k1 : Chunk.Chunk := kk 1 0 ((docPacket.drop 40).take 40)
+def k2 : Chunk.Chunk := kk 2 1 (docPacket.drop 80)
+
+theorem kk_wf : ∀ c ∈ [k0, k1, k2], WfChunk c := by
+  intro c hc
+  simp only [List.mem_cons, List.mem_nil_iff, or_false] at hc
+  rcases hc with rfl | rfl | rfl <;>
+    exact ⟨by decide +kernel, by decide, by decide, by decide, by decide, by decide,
+      by decide +kernel, by decide +kernel⟩
+
+/-- Non-vacuity of `wire_transport`: the three-chunk example message, encoded to chunk bytes and
+delivered out of order, decodes and reassembles to the documented packet. -/
+example : pwbFromChunkBytes ([k2, k0, k1].map encodeChunk) = .ok (Pwb.fields docPacket) :=
+  wire_transport [k0, k1, k2] [k2, k0, k1] _ (by decide +kernel) kk_wf (by decide +kernel)
+    2281646316 3 (by decide +kernel) (by decide +kernel)
+    ⟨by decide +kernel, by decide, by decide +kernel, by decide +kernel, by decide +kernel⟩
+    (by decide +kernel)
+
 end AlphaG
